@@ -100,6 +100,13 @@ def discharge(ob, axioms, timeout_ms=20000, want_model=True):
     res = stage(1, min(1500, timeout_ms))
     if res:
         return res
+    # full context, briefly: most obligations outside the arithmetic / sequence core are immediate
+    r0, dt0, s0 = _check(hyps, axioms, ob.goal, min(2000, timeout_ms))
+    total += dt0
+    if r0 == z3.unsat:
+        return {"status": "proved", "time": total, "backend": "z3", "model": None, "reason": ""}
+    if r0 == z3.sat:
+        return {"status": "refuted", "time": total, "backend": "z3", "model": s0.model() if want_model else None, "reason": ""}
     # portfolio: the same query as SMT-LIB text to cvc5 and to the older z3 binary (their sequence solvers succeed on
     # many queries where z3 5.x gives up, and vice versa); the first `unsat` wins
     ext = external_portfolio(hyps, axioms, ob.goal, min(timeout_ms, 15000))
